@@ -47,14 +47,14 @@ def _f32(x: float) -> float:
 
 TT = {1: "alpha", 2: "Alpha", 3: "beta"}
 LEAF: Dict[str, Tuple[int, List[Any]]] = {
-    "u8": (1, [1, 2, 16, 17, 18, 34, 49, 98]),
-    "i8": (1, [-1, 1, -2, 2]),
-    "u16": (2, [1, 256, 4660, 61712]),
+    "u8": (1, [0, 1, 2, 16, 17, 18, 34, 49, 98]),  # 0: falsy but a value like any other
+    "i8": (1, [0, -1, 1, -2, 2]),
+    "u16": (2, [0, 1, 256, 4660, 61712]),
     "asc2": (2, ["AB", "ab", "Ab", "A1", "10"]),
     "bf2": (2, [b"\x0a\x1b", b"\x0a\x1c", b"\x00\xff", b"\xab\xcd"]),
-    "lin": (1, [0.5, 1.0, 1.5, 2.0]),
+    "lin": (1, [0.0, 0.5, 1.0, 1.5, 2.0]),
     "tt": (1, ["alpha", "Alpha", "beta"]),
-    "f32": (4, [1.5, -2.25, _f32(0.1), 1024.0]),
+    "f32": (4, [0.0, 1.5, -2.25, _f32(0.1), 1024.0]),
 }
 NRCS = [0x10, 0x11, 0x12, 0x22, 0x31]
 INVALID = ("<invalid>",)
